@@ -19,6 +19,7 @@ import (
 	"math/big"
 	"math/rand"
 	"sort"
+	"unicode/utf16"
 
 	"github.com/btcsuite/btcd/btcec/v2"
 )
@@ -162,6 +163,9 @@ func ecdsaSignDet(r *rand.Rand, priv *ecdsa.PrivateKey, hash []byte) (*big.Int, 
 // jcs: canonical JSON of values made of maps / slices / strings / integers / bools. For these
 // encoding/json with sorted map keys and HTML escaping off coincides with RFC 8785 as long as
 // strings stay inside printable ASCII (which the builder guarantees).
+// jcs: the harness's own canonical form (RFC 8785): the value goes through encoding/json once (any
+// Go type), is read back as a generic tree with the number literals kept, and is written with
+// members in UTF-16 code-unit order and only the mandatory string escapes.
 func jcs(v interface{}) []byte {
 	var buf bytes.Buffer
 	enc := json.NewEncoder(&buf)
@@ -169,7 +173,96 @@ func jcs(v interface{}) []byte {
 	if err := enc.Encode(v); err != nil {
 		panic(err)
 	}
-	return bytes.TrimRight(buf.Bytes(), "\n")
+	dec := json.NewDecoder(bytes.NewReader(buf.Bytes()))
+	dec.UseNumber()
+	var tree interface{}
+	if err := dec.Decode(&tree); err != nil {
+		panic(err)
+	}
+	var out bytes.Buffer
+	jcsWrite(&out, tree)
+	return out.Bytes()
+}
+
+func jcsString(out *bytes.Buffer, s string) {
+	out.WriteByte('"')
+	for _, c := range []byte(s) {
+		switch {
+		case c == '"':
+			out.WriteString(`\"`)
+		case c == '\\':
+			out.WriteString(`\\`)
+		case c == '\b':
+			out.WriteString(`\b`)
+		case c == '\f':
+			out.WriteString(`\f`)
+		case c == '\n':
+			out.WriteString(`\n`)
+		case c == '\r':
+			out.WriteString(`\r`)
+		case c == '\t':
+			out.WriteString(`\t`)
+		case c < 0x20:
+			fmt.Fprintf(out, `\u%04x`, c)
+		default:
+			out.WriteByte(c)
+		}
+	}
+	out.WriteByte('"')
+}
+
+func utf16Less(a, b string) bool {
+	x, y := utf16.Encode([]rune(a)), utf16.Encode([]rune(b))
+	for i := 0; i < len(x) && i < len(y); i++ {
+		if x[i] != y[i] {
+			return x[i] < y[i]
+		}
+	}
+	return len(x) < len(y)
+}
+
+func jcsWrite(out *bytes.Buffer, v interface{}) {
+	switch t := v.(type) {
+	case nil:
+		out.WriteString("null")
+	case bool:
+		if t {
+			out.WriteString("true")
+		} else {
+			out.WriteString("false")
+		}
+	case json.Number:
+		out.WriteString(t.String())
+	case string:
+		jcsString(out, t)
+	case []interface{}:
+		out.WriteByte('[')
+		for i, e := range t {
+			if i > 0 {
+				out.WriteByte(',')
+			}
+			jcsWrite(out, e)
+		}
+		out.WriteByte(']')
+	case map[string]interface{}:
+		keys := make([]string, 0, len(t))
+		for k := range t {
+			keys = append(keys, k)
+		}
+		sort.Slice(keys, func(i, j int) bool { return utf16Less(keys[i], keys[j]) })
+		out.WriteByte('{')
+		for i, k := range keys {
+			if i > 0 {
+				out.WriteByte(',')
+			}
+			jcsString(out, k)
+			out.WriteByte(':')
+			jcsWrite(out, t[k])
+		}
+		out.WriteByte('}')
+	default:
+		panic(fmt.Sprintf("jcs: unexpected %T", v))
+	}
 }
 
 func digest(code uint64, data []byte) []byte {
